@@ -339,6 +339,94 @@ def get_eos_loop_features(loop_and_tail):
     return feats
 
 
+def _strip_lazy_static(body):
+    """the body without its lazy_static! { .. } block (the patterns themselves are facts of their own: regex inventory,
+    SentenceRegexFacts)"""
+    m = re.search(r"lazy_static!\s*\{", body)
+    if not m:
+        return body
+    d, k = 0, m.end() - 1
+    while k < len(body):
+        if body[k] == "{":
+            d += 1
+        elif body[k] == "}":
+            d -= 1
+            if d == 0:
+                break
+        k += 1
+    return body[:m.start()] + body[k + 1:]
+
+
+def continuous_phrase_features(body):
+    """is_continuous_phrase(s, eos) -> (features, characters of the itemisation rule)"""
+    t = norm(_strip_lazy_static(body))
+    m = re.match(r"let (?P<l>%s) = s\[\.\.eos\]\.chars\(\)\.last\(\)\.unwrap\(\)\.(?:to_string\(\)\.len\(\)|len_utf8\(\)); " % ID, t)
+    if not m:
+        raise F.FactError("is_continuous_phrase: byte length of the last character before eos not recognised")
+    L = re.escape(m.group("l"))
+    t = t[m.end():]
+    SL = r"&s\[\(?eos - %s\)?\.\.\]" % L
+    FIND = r"QUOTE_MARKER\.find\(%s\)\?" % SL
+    AT0 = r"(?:(?P=m)\.start\(\) == 0|0 == (?P=m)\.start\(\))"
+    quotes = [
+        r"if let Some\((?P<m>%s)\) = %s \{ if %s \{ return Ok\(true\); \} \} " % (ID, FIND, AT0),
+        r"let (?P<q>%s) = %s; if (?P=q)\.(?:map_or\(false, |is_some_and\()\|(?P<m>%s)\| %s\) \{ return Ok\(true\); \} " % (ID, FIND, ID, AT0),
+        r"if %s\.(?:map_or\(false, |is_some_and\()\|(?P<m>%s)\| %s\) \{ return Ok\(true\); \} " % (FIND, ID, AT0),
+        r"if matches!\(%s, Some\((?P<m>%s)\) if %s\) \{ return Ok\(true\); \} " % (FIND, ID, AT0),
+    ]
+    mm = None
+    for q in quotes:
+        mm = re.match(q, t)
+        if mm:
+            break
+    if not mm:
+        raise F.FactError("is_continuous_phrase: quote rule `QUOTE_MARKER.find(&s[eos - last_char_len..])? starts at 0 => true` not recognised: %s" % t[:140])
+    t = t[mm.end():]
+    m = re.match(r"let (?P<c>%s) = s\[eos\.\.\]\.chars\(\)\.(?:nth\(0\)|next\(\))\.unwrap\(\); " % ID, t)
+    if not m:
+        raise F.FactError("is_continuous_phrase: first character after eos not recognised")
+    C = re.escape(m.group("c"))
+    t = t[m.end():]
+    HDR = r"EOS_ITEMIZE_HEADER\.is_match\(&s\[\.\.eos\]\)\?"
+    m = re.fullmatch(r"Ok\(\((?P<alts>(?:%s == '.' \|\| )*%s == '.')\) && %s\)" % (C, C, HDR), t)
+    if m:
+        follow = re.findall(r"== '(.)'", m.group("alts"))
+    else:
+        m = re.fullmatch(r"Ok\(matches!\(%s, (?P<alts>(?:'.' \| )*'.')\) && %s\)" % (C, HDR), t)
+        if not m:
+            raise F.FactError("final expression of is_continuous_phrase not recognised")
+        follow = re.findall(r"'(.)'", m.group("alts"))
+    feats = [("cp_last_char", "last_char_len = UTF-8 length of the last character of s[..eos]"),
+             ("cp_quote_rule", "QUOTE_MARKER.find(&s[eos - last_char_len..])? = Some(m) with m.start() == 0 => Ok(true)"),
+             ("cp_next_char", "c = first character of s[eos..]"),
+             ("cp_itemize_rule", "Ok(c is one of ITEM_FOLLOW && EOS_ITEMIZE_HEADER.is_match(&s[..eos])?)")]
+    return feats, follow
+
+
+def parenthesis_level_features(body):
+    t = norm(_strip_lazy_static(body))
+    m = re.match(r"let mut (?P<lv>%s)(?:: usize)? = 0(?:usize)?; for (?P<c>%s) in PARENTHESIS\.captures_iter\((?P<s>%s)\) \{ " % (ID, ID, ID), t)
+    if not m:
+        raise F.FactError("parenthesis_level: not `let mut level = 0; for caps in PARENTHESIS.captures_iter(s) {`")
+    LV, C = re.escape(m.group("lv")), re.escape(m.group("c"))
+    t = t[m.end():]
+    POS = r"(?:%s > 0|0 < %s|%s != 0|%s >= 1)" % (LV, LV, LV, LV)
+    G1 = r"%s\?\.get\(1\)" % C
+    shapes = [
+        r"if let Some\(_\) = %s \{ %s \+= 1; \} else if %s \{ %s -= 1; \} \} Ok\(%s\)" % (G1, LV, POS, LV, LV),
+        r"if %s\.is_some\(\) \{ %s \+= 1; \} else if %s \{ %s -= 1; \} \} Ok\(%s\)" % (G1, LV, POS, LV, LV),
+        r"match %s \{ Some\(_\) => %s \+= 1, None if %s => %s -= 1, (?:None|_) => \{\},? \} \} Ok\(%s\)" % (G1, LV, POS, LV, LV),
+        r"if %s\.is_some\(\) \{ %s \+= 1; \} else \{ %s = %s\.saturating_sub\(1\); \} \} Ok\(%s\)" % (G1, LV, LV, LV, LV),
+    ]
+    if not any(re.fullmatch(x, t) for x in shapes):
+        raise F.FactError("parenthesis_level: loop body is not `group 1 => level += 1; otherwise level > 0 => level -= 1` followed by Ok(level): %s" % t[:160])
+    return [("pl_start", "level = 0 (usize)"),
+            ("pl_traversal", "every match of PARENTHESIS.captures_iter(s), in order"),
+            ("pl_open", "group 1 took part => level += 1"),
+            ("pl_close", "otherwise level > 0 => level -= 1 (a closing bracket at level 0 is ignored)"),
+            ("pl_result", "Ok(level)")]
+
+
 def gen():
     raw = F.src(DET)
     t = F.strip_comments(raw, canonical=False)
@@ -403,12 +491,10 @@ def gen():
     out.append("Definition QUOTE_SECOND : list (list N) := [ %s ].\n" % "; ".join(coq_text(x) for x in seconds))
     # is_continuous_phrase: (c == 'と' || c == 'や' || c == 'の') && EOS_ITEMIZE_HEADER.is_match(&s[..eos])?
     body = F.fn_body(t, "is_continuous_phrase", DET)
-    m = re.search(r"Ok\(\s*\(((?:\s*c\s*==\s*'.'\s*\|\|)*\s*c\s*==\s*'.'\s*)\)\s*&&\s*EOS_ITEMIZE_HEADER\.is_match\(&s\[\.\.eos\]\)\?\s*\)", body)
-    if not m:
-        raise F.FactError("final expression of is_continuous_phrase not recognised")
-    follow = re.findall(r"c\s*==\s*'(.)'", m.group(1))
+    cp_feats, follow = continuous_phrase_features(body)
     out.append("Definition ITEM_FOLLOW : list N := [ %s ]%%N.\n" % "; ".join(str(ord(x)) for x in follow))
-    out.append("Definition continuous_phrase_body : string := %s.\n" % coq_string(norm(body)))
+    for k, v in cp_feats:
+        out.append("Definition %s : string := %s.\n" % (k, coq_string(v)))
 
     # control flow of the candidate loop and the tail of get_eos
     body = F.fn_body(t, "get_eos", DET)
@@ -422,7 +508,8 @@ def gen():
     out.append("Definition get_eos_steps : list string := [ %s ].\n" % ";\n    ".join(coq_string(x) for x in get_eos_loop_features(tail)))
     for k, v in non_break_features(F.fn_body(t, "has_non_break_word", DET)):
         out.append("Definition %s : string := %s.\n" % (k, coq_string(v)))
-    out.append("Definition parenthesis_level_body : string := %s.\n" % coq_string(norm(re.sub(r"lazy_static!\s*\{.*?\n\s{4}\}", "lazy_static!{..}", F.fn_body(t, "parenthesis_level", DET), flags=re.S))))
+    for k, v in parenthesis_level_features(F.fn_body(t, "parenthesis_level", DET)):
+        out.append("Definition %s : string := %s.\n" % (k, coq_string(v)))
     for k, v in prohibited_bos_features(F.fn_body(t, "prohibited_bos", DET)):
         out.append("Definition %s : string := %s.\n" % (k, coq_string(v)))
     m = re.search(r"pub\s+fn\s+new\(lexicon[^)]*\)\s*->\s*Self\s*\{\s*NonBreakChecker\s*\{\s*lexicon\s*,\s*bos\s*:\s*(\d+)\s*\}", t)
